@@ -706,10 +706,12 @@ def _dispatch_log_or_error(
         extra = {k: str(v) for k, v in raw_extra_data.items()}
     # Extract server_id from top-level metadata into extra
     server_id_bytes = custom_metadata.get(SERVER_ID_KEY)
+    # setdefault: an extra field the emitter itself named "server_id" /
+    # "request_id" is part of the message and must arrive as emitted.
     if server_id_bytes is not None:
-        extra["server_id"] = server_id_bytes.decode(errors="replace")
+        extra.setdefault("server_id", server_id_bytes.decode(errors="replace"))
     if request_id:
-        extra["request_id"] = request_id
+        extra.setdefault("request_id", request_id)
     # Not ``Message(level, text, **extra)``: an extra key named like one of the
     # constructor's own parameters ("level", "message", "self") would collide.
     msg = Message(level, message_str)
